@@ -1,0 +1,10 @@
+//go:build verif
+
+package serf
+
+import "github.com/hashicorp/serf/coordinate"
+
+// VerifCoordClient returns the node's coordinate client (nil when coordinates
+// are disabled). Used only by the verification harness (/verif); compiled only
+// with -tags verif.
+func (s *Serf) VerifCoordClient() *coordinate.Client { return s.coordClient }
